@@ -307,6 +307,7 @@ def main():
     base = os.environ.get("VERIF_SCRATCH") or tempfile.gettempdir()
     scratch = tempfile.mkdtemp(prefix=f"eg-verif-{prop}-", dir=base)
     undecided = []
+    not_finished = []   # resource limits (timeout, out of memory, solver crash): reported, never an alarm, do not change the exit code
     try:
         weave.copy_repo(scratch)
         try:
@@ -468,6 +469,9 @@ def main():
                         undecided.append(f"{h.name}: vacuity canary passed (preconditions contradictory?)")
                     else:
                         row["outcome"] = "known-finding-not-reproduced"
+                elif str(r.get("exit_status")) in ("timeout", "out_of_memory") or str(r.get("exit_status")).startswith("exit_code_"):
+                    row["outcome"] = "not-finished"
+                    not_finished.append(f"{h.name}: {r.get('exit_status')} (expected-failure harness)")
                 else:
                     row["outcome"] = "undecided"
                     undecided.append(f"{h.name}: expected failure but got {r['status']} without refuted check")
@@ -475,6 +479,11 @@ def main():
                 if real_fail:
                     row["outcome"] = "refuted"
                     violations.append((h, r))
+                elif not unwind_fail and not r["undetermined"] and r["status"] != "Success" and not r["failed"] and \
+                        (str(r.get("exit_status")) in ("timeout", "out_of_memory") or str(r.get("exit_status")).startswith("exit_code_")):
+                    # resource limit: the obligation was neither discharged nor refuted in the time/memory budget
+                    row["outcome"] = "not-finished"
+                    not_finished.append(f"{h.name}: {r.get('exit_status')} after {r.get('duration_s')} s")
                 elif unwind_fail or r["status"] != "Success" or r["undetermined"]:
                     row["outcome"] = "undecided"
                     undecided.append(f"{h.name}: {r['status']} ({'unwinding assertion' if unwind_fail else r.get('exit_status')})")
@@ -526,7 +535,11 @@ def main():
                     json.dump({"property": prop, "harness": h.name, "note": "witness harness failed but finding is not listed as open",
                                "failed_obligations": results[h.name]["failed"], "harness_source": h.text}, f, indent=1)
                 vio_lines.append(f"VIOLATION property={prop} replay={rp} no-failing-input-found")
+        n_dis = sum(1 for r in rows if r.get("outcome") == "discharged")
+        if not vio_lines and not undecided and n_dis == 0:
+            undecided.append("no deciding harness finished within its resource limits")
         rc = 1 if vio_lines else (2 if undecided else 0)
+        pc = dict(pc, _not_finished=not_finished)
         return finish(prop, tier, seed, pc, rows, results, vio_lines, undecided, t_start, cmds, args, sel, findings, rc, logs)
     finally:
         if args.keep:
@@ -555,6 +568,8 @@ def finish(prop, tier, seed, pc, rows, results, vio_lines, undecided, t_start, c
         log(v)
     for u in undecided:
         log(f"[{prop}] UNDECIDED: {u}")
+    for u in pc.get("_not_finished", []):
+        log(f"[{prop}] NOT-FINISHED (resource limit; not counted, not an alarm): {u}")
     deciding = [r for r in rows if not r.get("expect_fail")]
     oblig = sum(r.get("checks_total", 0) - r.get("checks_unreachable", 0) - r.get("covers_total", 0) for r in deciding)
     disch = sum(r.get("checks_success", 0) for r in deciding if r.get("outcome") == "discharged")
@@ -593,6 +608,7 @@ def finish(prop, tier, seed, pc, rows, results, vio_lines, undecided, t_start, c
             "backend": "Kani 0.68.0 -> CBMC 6.11.0 -> CaDiCaL",
             "solver_s_total": round(sum((r.get("solver_s") or 0) for r in rows), 3),
             "undecided": undecided,
+            "not_finished_within_resource_limits": pc.get("_not_finished", []),
             "known_findings_reproduced": [r["harness"] for r in rows if r.get("outcome") == "known-finding-reproduced"],
             "canaries_failed_as_required": [r["harness"] for r in rows if r.get("outcome") == "canary-failed-as-required"],
             "not_covered": pc.get("not_covered", []),
